@@ -14,6 +14,15 @@ import ast
 from .core import AnalysisError, U
 
 
+_EXC_PARENTS = {
+    "KeyError": {"LookupError", "Exception", "BaseException"}, "IndexError": {"LookupError", "Exception", "BaseException"},
+    "ValueError": {"Exception", "BaseException"}, "TypeError": {"Exception", "BaseException"},
+    "FileNotFoundError": {"OSError", "IOError", "Exception", "BaseException"}, "ZeroDivisionError": {"ArithmeticError", "Exception", "BaseException"},
+    "AttributeError": {"Exception", "BaseException"}, "RuntimeError": {"Exception", "BaseException"},
+    "NotImplementedError": {"RuntimeError", "Exception", "BaseException"}, "UnicodeDecodeError": {"ValueError", "Exception", "BaseException"},
+}
+
+
 def _is_object(d):
     """Dictionaries that model objects (compared by identity) as opposed to dictionaries that model mappings."""
     return "name" in d or any(isinstance(k, str) and k.startswith("__") for k in d)
@@ -61,7 +70,15 @@ class Interp:
         if isinstance(node, ast.Constant):
             return node.value
         if isinstance(node, (ast.List, ast.Tuple, ast.Set)):
-            vals = [self.ev(e) for e in node.elts]
+            vals = []
+            for e in node.elts:
+                if isinstance(e, ast.Starred):
+                    seq = self.ev(e.value)
+                    if isinstance(seq, Unknown):
+                        return Unknown("starred " + seq.why)
+                    vals.extend(list(seq))
+                else:
+                    vals.append(self.ev(e))
             return vals if isinstance(node, ast.List) else tuple(vals) if isinstance(node, ast.Tuple) else set(vals)
         if isinstance(node, ast.Dict) and all(k is not None for k in node.keys):
             return {self.ev(k): self.ev(v) for k, v in zip(node.keys, node.values)}
@@ -214,7 +231,23 @@ class Interp:
             args = [self.ev(a) for a in node.args]
             if any(isinstance(a, Unknown) for a in args):
                 return Unknown(name)
-            return {"str": str, "int": int, "float": float, "len": len, "bool": bool, "abs": abs}[name](*args)
+            try:
+                return {"str": str, "int": int, "float": float, "len": len, "bool": bool, "abs": abs}[name](*args)
+            except (ValueError, TypeError) as exc:
+                raise Flow("raise", f"{type(exc).__name__}({str(exc)!r})", node) from None
+        if name in ("range", "enumerate", "zip", "min", "max", "sum", "sorted", "list", "tuple", "reversed", "round") \
+                and name not in self.env and not node.keywords:
+            args = [self.ev(a) for a in node.args]
+            if any(isinstance(a, Unknown) for a in args):
+                return Unknown(name)
+            try:
+                res = {"range": range, "enumerate": enumerate, "zip": zip, "min": min, "max": max, "sum": sum, "sorted": sorted,
+                       "list": list, "tuple": tuple, "reversed": reversed, "round": round}[name](*args)
+            except (TypeError, ValueError) as exc:
+                raise AnalysisError(f"guard language: cannot evaluate {U(node)[:60]!r}: {exc}") from exc
+            if name in ("range", "enumerate", "zip", "reversed"):
+                return [list(x) if isinstance(x, tuple) and name != "zip" else x for x in res] if name == "enumerate" else list(res)
+            return res
         if isinstance(node.func, ast.Attribute) and node.func.attr in ("strip", "lower", "upper", "startswith", "endswith"):
             base = self.ev(node.func.value)
             if isinstance(base, Unknown):
@@ -235,7 +268,10 @@ class Interp:
                             del base[i_]
                             break
                     return None
-                return getattr(base, node.func.attr)(*args)
+                try:
+                    return getattr(base, node.func.attr)(*args)
+                except (IndexError, ValueError) as exc:
+                    raise Flow("raise", f"{type(exc).__name__}({str(exc)!r})", node) from None
         if self.call_hook is not None:
             try:
                 return self.call_hook(self, node)
@@ -287,6 +323,28 @@ class Interp:
             return
         elif isinstance(st, ast.Delete):
             self.trace.append(("del", U(st), st))
+        elif isinstance(st, ast.Try) and self.loop_hook is not None:
+            try:
+                try:
+                    self.run(st.body)
+                except Flow as fl:
+                    if fl.kind != "raise":
+                        raise
+                    exc_cls = str(fl.value).split("(")[0].strip() or "Exception"
+                    for h in st.handlers:
+                        names = [] if h.type is None else [U(t).split(".")[-1] for t in (h.type.elts if isinstance(h.type, ast.Tuple) else [h.type])]
+                        if h.type is None or exc_cls in names or set(names) & _EXC_PARENTS.get(exc_cls, {"Exception", "BaseException"}):
+                            if h.name:
+                                self.env[h.name] = Unknown("exception object")
+                            self.run(h.body)
+                            break
+                    else:
+                        raise
+                else:
+                    self.run(st.orelse)
+            finally:
+                if st.finalbody:
+                    self.run(st.finalbody)
         elif isinstance(st, ast.While) and self.loop_hook is not None:
             n_iter = 0
             while self.truth(self.ev(st.test), st.test):
